@@ -1056,20 +1056,28 @@ def _sc_of_yv(v):
 
 
 def tree_of_wire_doc(doc):
-    """the document `QuaMap.write` hands to yaml.dump, as the model computed it -> Tree wire (None = outside the dialect)"""
-    try:
-        out = [[k, _sc_of_yv(v)] for k, v in doc["meta"]]
-        for name in SECTION_ORDER:
-            recs = doc.get(SEC_WIRE[name])
-            if recs is None:
-                return None
-            if any(not r for r in recs):
-                return None
-            out.append([name, dict(t="empty") if not recs else
-                        dict(t="recs", v=[[[k, _sc_of_yv(v)] for k, v in r] for r in recs])])
-        return out
-    except ValueError:
-        return None
+    """the document `QuaMap.write` hands to yaml.dump, as the model computed it -> Tree wire; a top-level entry whose value is
+    outside the dialect (a non-empty list that is not a list of mappings of the dialect) is kept with value None: its text is
+    not compared, the entries around it are.  None = no section list at all"""
+    def sc(v):
+        try:
+            return _sc_of_yv(v)
+        except ValueError:
+            return None
+    out = [[k, sc(v)] for k, v in doc["meta"]]
+    for name in SECTION_ORDER:
+        recs = doc.get(SEC_WIRE[name])
+        if recs is None:
+            return None
+        if not recs:
+            out.append([name, dict(t="empty")])
+            continue
+        rs = [[[k, sc(v)] for k, v in r] for r in recs]
+        if any(not r or any(v is None for _, v in r) for r in rs):
+            out.append([name, None])
+        else:
+            out.append([name, dict(t="recs", v=rs)])
+    return out
 
 
 def _sc_matches(v, pv):
@@ -1127,7 +1135,7 @@ def _order_like(ents, d):
     out = []
     for k, v in ents:
         pv = d.get(k) if isinstance(d, dict) else None
-        if v["t"] == "recs" and isinstance(pv, list) and len(pv) == len(v["v"]):
+        if v is not None and v["t"] == "recs" and isinstance(pv, list) and len(pv) == len(v["v"]):
             v = dict(t="recs", v=[reorder(r, x) for r, x in zip(v["v"], pv)])
         out.append([k, v])
     return out
@@ -1220,12 +1228,14 @@ def text_write_check(drv, model_doc, text, pdoc, wire, tags, detail):
     if tree is None:
         tags.append("text-outside-dialect")
     else:
-        r = drv.call("c06.emit_text", tree=tree)["ok"]
+        known = [e for e in tree if e[1] is not None]
+        r = drv.call("c06.emit_text", tree=known)["ok"] if len(known) == len(tree) else dict(text=None, nodup=True)
         if r["text"] is None:
             # entry by entry: every top-level entry of the class must stand in the text exactly as the model emits it
-            tags.append("text-outside-class")
+            tags.append("text-outside-class" if len(known) == len(tree) else "text-outside-dialect-entries")
             segs = segments(text)
-            texts = drv.call("c06.emit_entries", tree=tree)["ok"]
+            it = iter(drv.call("c06.emit_entries", tree=known)["ok"])
+            texts = [next(it) if e[1] is not None else None for e in tree]
             if len(segs) != len(texts):
                 agree = False
                 detail["text_entries"] = dict(impl=len(segs), model=len(texts))
